@@ -121,11 +121,19 @@ class Check:
                 self.run_case(case, ctx)
             except HarnessError:
                 raise
-            except Exception as e:  # an unexpected exception escaping the oracle is a harness bug
-                raise HarnessError(
-                    f"unhandled exception in run_case for case {json.dumps(case, default=str)[:500]}:\n"
-                    + traceback.format_exc()
-                ) from e
+            except Exception as e:
+                # The oracle could not even evaluate what the library returned (e.g. a malformed result).  On the unchanged tree
+                # this never happens (every check is run there), so after a change to the library it is reported as a violation
+                # of the property under its own signature - unless VERIF_STRICT_HARNESS=1 asks for a harness error instead.
+                if os.environ.get("VERIF_STRICT_HARNESS"):
+                    raise HarnessError(
+                        f"unhandled exception in run_case for case {json.dumps(case, default=str)[:500]}:\n"
+                        + traceback.format_exc()
+                    ) from e
+                tb = traceback.extract_tb(e.__traceback__)
+                where = f"{os.path.basename(tb[-1].filename)}:{tb[-1].name}" if tb else "?"
+                ctx.violation(f"oracle-could-not-evaluate-library-result/{type(e).__name__}@{where}",
+                              f"case {json.dumps(case, default=str)[:800]}: {type(e).__name__}: {e}\n" + traceback.format_exc()[-1500:])
 
     def extra_coverage(self, merged):
         return {}
